@@ -32,3 +32,14 @@ package aliyun
 //@   requires a != nil && a.openAPI != nil && a.vsw != nil
 //@   at call ExponentialBackoffWithContext: ghost c07created = (result == nil)
 //@   ensures c07created && result3 != nil ==> result0 != nil
+
+//@ for C17
+//@ # ---- every create attempt selects its vSwitch anew (inside the retried step): a vSwitch the previous attempt reported
+//@ # ---- exhausted — and blocked — is not asked again, the next candidate is; and the request goes to the vSwitch selected ----
+//@ ghost c17fresh bool = false
+//@ ghost c17id string = ""
+//@ func Aliyun.CreateNetworkInterface$1
+//@   requires a != nil && a.vsw != nil && a.openAPI != nil
+//@   at call SwitchPool.GetOne: ghost c17fresh = (result1 == nil)
+//@   at call SwitchPool.GetOne: ghost c17id = result0.ID
+//@ guard call CreateNetworkInterface in CreateNetworkInterface$1: c17fresh && len(arg1) == 1 && isptr(arg1[0], client.CreateNetworkInterfaceOptions) && asptr(arg1[0], client.CreateNetworkInterfaceOptions).NetworkInterfaceOptions.VSwitchID == c17id
